@@ -107,8 +107,14 @@ def _r17_5(ctx):
   b = ctx.body('R17.5', 'ord::index::Index::open_with_event_sender')
   if b is None:
     return
-  ls = b.locals_named('first_index_height')
-  if not ctx.anchor('R17.5', 'local first_index_height', len(ls) == 1, b.n):
+  lits0 = [s for blk in b.blocks for s in blk['s'] if s.get('rv', {}).get('k') == 'agg' and norm(s['rv'].get('adt') or '') == 'ord::index::Index']
+  ls = []
+  for s in lits0:
+    fo0 = dict(zip(s['rv']['fields'], s['rv']['ops']))
+    if 'first_index_height' in fo0:
+      # the local the field is initialised from (whatever it is called)
+      ls = sorted({o.local for o in origins(b, fo0['first_index_height'], named_terminal=True, depth=1) if o.local is not None})
+  if not ctx.anchor('R17.5', 'the value stored in Index.first_index_height', len(ls) == 1, b.n):
     return
   defs = [d for d in b.defs().get(ls[0], []) if d['kind'] in ('assign', 'call') and not d['proj']]
   ctx.floor('R17.5', 'definitions of first_index_height', len(defs), 3)
@@ -118,7 +124,7 @@ def _r17_5(ctx):
   for s in lits:
     fo = dict(zip(s['rv']['fields'], s['rv']['ops']))
     if 'first_index_height' in fo:
-      stored = any(o.kind == 'var' and o.name == 'first_index_height' or (o.local == ls[0]) for o in origins(b, fo['first_index_height'], named_terminal=True, depth=1))
+      stored = any(o.local == ls[0] for o in origins(b, fo['first_index_height'], named_terminal=True, depth=1))
   ctx.ob('R17.5', b.n, 'Index.first_index_height <- first_index_height', stored, '', where(b, b.line))
   n_zero = 0
   for d in defs:
